@@ -230,7 +230,10 @@ func (it *FlatIterator) NextValid() (int, int, error) {
 	switch {
 	case it.isScalar:
 		it.done = true
-		return 0, 0, nil
+		if it.reverse {
+			return 0, -1, nil
+		}
+		return 0, 1, nil
 	case it.isVector:
 		if it.reverse {
 			a, err := it.singlePrevious()
